@@ -20,8 +20,8 @@ ASSUMPTIONS = [
     "ports whose deactivated impedance is infinite (port nodes not conductively connected) are outside the domain and skipped",
     "tolerance (1e-9 + 256 kappa 2^-53) * max(|Z_ref|, largest finite element impedance); kappa of the deactivated float MNA; kappa > 1e8 set aside",
 ]
-N_NET = {'quick': 1500, 'thorough': 30000}
-N_CIRC = {'quick': 300, 'thorough': 6000}
+N_NET = {'quick': 2250, 'thorough': 30000}
+N_CIRC = {'quick': 450, 'thorough': 6000}
 
 
 def salted(rng, d):
@@ -167,6 +167,7 @@ def judge(case, ctx, prefix='C06'):
     for b in desc['branches']:
         if b['ctor'] == 'voltage_source' and netdesc.is_zero(b.get('Z', 0)):
             pairs.append((b['n1'], b['n2']))
+            pairs.append((b['n2'], b['n1']))
             break
     judged_any = False
     for a, b in pairs:
@@ -176,6 +177,12 @@ def judge(case, ctx, prefix='C06'):
         judged_any = True
         nontrivial = zref is not None and abs(zref) > 0
         ctx.evaluated(netdesc.signature(desc) + repr((a == desc['ref'], b == desc['ref'], case['stratum'])), nontrivial)
+        if st == 'ok' and a != b and refd is not None and zref is not None and abs(zref) == 0:
+            v0 = call(bpa.open_circuit_voltage, net, a, b)
+            e0 = refd['rep']['phi'][a] - refd['rep']['phi'][b]
+            ctx.count('open_circuit_voltages_compared')
+            if raised(v0) or abs(complex(v0) - e0) > refd['tol'] * refd['s_phi'] * 4:
+                ctx.violation(f'{prefix}/open-circuit-voltage/mismatch-across-ideal-source', f'open_circuit_voltage({a!r},{b!r}) = {v0!r}, exact {e0!r}', {})
         if st != 'ok' or a == b:
             continue
         # symmetry and independence of the reference node (relations on the library's own outputs)
@@ -196,6 +203,10 @@ def judge(case, ctx, prefix='C06'):
         voc = call(bpa.open_circuit_voltage, net, a, b)
         if raised(voc):
             ctx.violation(f'{prefix}/open-circuit-voltage/raised/{voc.key}', voc.text, {})
+            continue
+        ctx.count('open_circuit_voltages_compared')
+        if abs(complex(voc) - voc_ref) > refd['tol'] * refd['s_phi'] * 4:
+            ctx.violation(f'{prefix}/open-circuit-voltage/mismatch', f'open_circuit_voltage({a!r},{b!r}) = {complex(voc)!r}, exact {voc_ref!r}', {})
             continue
         if abs(zref) > 0:
             isc = call(bpa.short_circuit_current, net, a, b)
